@@ -362,7 +362,11 @@ fn check_camera(i: u64, r: &mut Report) {
     let (l, t, rr, b) = if default_vp { (0, 0, dims.0, dims.1) } else { rects[(i / 4 % 6) as usize] };
     let focal = [0.5f32, 1.0, 2.0][(i / 24 % 3) as usize];
     let ortho = (i / 72) % 2 == 1;
-    let pidx = i / 144;
+    let pidx = i / 144 % 10;
+    // builder order: 0 = viewport, then projection; 1 = projection, then viewport (judged for the orthographic box, whose
+    // meaning does not depend on the frame's aspect ratio)
+    let proj_first = i / 1440 == 1;
+    if proj_first && (!ortho || default_vp) { return; }
     r.eval();
     let case = || obj! {"kind" => "camera", "i" => i};
     // effective rectangle
@@ -371,8 +375,10 @@ fn check_camera(i: u64, r: &mut Report) {
     let (vw, vh) = ((er - el) as f64, (eb - et) as f64);
     let cam = match caught(|| {
         let c = Camera::new(dims).mode(translate(vec3(0.5, -0.25, 1.0)).to::<RealToReal<3, World, View>>());
-        let c = if default_vp { c } else { c.viewport((l..rr, t..b)) };
-        if ortho { c.orthographic(pt3(-2.0, -1.5, 0.5)..pt3(2.0, 1.5, 50.0)) } else { c.perspective(focal, 0.5..50.0) }
+        if proj_first { c.orthographic(pt3(-2.0, -1.5, 0.5)..pt3(2.0, 1.5, 50.0)).viewport((l..rr, t..b)) } else {
+            let c = if default_vp { c } else { c.viewport((l..rr, t..b)) };
+            if ortho { c.orthographic(pt3(-2.0, -1.5, 0.5)..pt3(2.0, 1.5, 50.0)) } else { c.perspective(focal, 0.5..50.0) }
+        }
     }) { Ok(c) => c, Err(p) => { r.violation(format!("camera-setup-panic|{dims:?}|{l},{t},{rr},{b}"), p, case()); return; } };
     // world probe points -> view = world + (0.5,-0.25,1)
     let probes: Vec<[f32; 3]> = vec![[0.0, 0.0, 2.0], [-0.5, 0.25, 1.0], [0.3, 0.2, 3.0], [-1.2, 0.9, 4.0], [1.0, -0.8, 2.5], [0.0, 0.0, 0.2], [5.0, 0.0, 1.0], [0.1, -0.1, 60.0], [0.1, 0.1, -3.0], [-0.45, 0.3, 0.6]];
@@ -526,14 +532,23 @@ fn run_proj(cfg: &Cfg) -> ! {
     for l in 0..=6u32 { for rr in l + 1..=7 { for t in 0..=6u32 { for b in t + 1..=7 { rects.push((l, t, rr, b)); } } } }
     rects.extend([(20, 10, 620, 470), (0, 0, 101, 75), (3, 4, 324, 205), (0, 0, 1, 1), (10, 10, 11, 4000)]);
     rep.merge(par_range(cfg, rects.len() as u64, |i, r| { let (l, t, rr, b) = rects[i as usize]; check_viewport(l, t, rr, b, r); }));
-    rep.merge(par_range(cfg, 144 * 10, check_camera));
+    rep.merge(par_range(cfg, 144 * 10 * 2, check_camera));
+    // FirstPerson::default() is FirstPerson::new(): same view transform, also after a translate (nothing resets the heading)
+    {
+        rep.eval();
+        let (d, n) = (FirstPerson::default(), FirstPerson::new());
+        let same = |a: &FirstPerson, b: &FirstPerson| caught(|| a.world_to_view().0) == caught(|| b.world_to_view().0) && caught(|| a.world_to_view()).is_ok();
+        let (mut d2, mut n2) = (d, n);
+        d2.translate(vec3(1.0, 2.0, 3.0)); n2.translate(vec3(1.0, 2.0, 3.0));
+        if !same(&d, &n) || !same(&d2, &n2) { rep.violation("fp-default|".into(), format!("FirstPerson::default().world_to_view() = {:?} but FirstPerson::new().world_to_view() = {:?}", caught(|| d.world_to_view().0), caught(|| n.world_to_view().0)), obj! {"kind" => "fp-default"}); } else { rep.nontrivial(); }
+    }
     rep.merge(par_range(cfg, 54 * 29 * 8 * 6, check_first_person));
     let _: Angle = degs(0.0);
     let _: Option<Point3> = None;
     let _ = <FirstPerson as Mode>::world_to_view;
     rep.sample(0, || obj! {"perspective" => "focal 2, aspect 2.35, near..far 0.01..10, probe (u,v,z) = (1-2e-4, -1.5, far)", "viewport" => vec![3, 4, 324, 205], "camera" => "frame 5x7, requested (3..40, 0..5), focal 1, world point (-1.2,0.9,4)", "first_person" => "pos (-2,0,3.5), az 165, alt 90; look_at straight down; translate (0.5,-2,3)"});
     rep.finish(cfg, "exploration",
-        "perspective: 5 focal x 4 aspect x 4 near/far x a 9x9x11 probe lattice in frustum coordinates (inside, on every face, +-2e-4 off, behind the eye): inside iff inside the clip volume, near/far to -1/+1, monotone depth, w = depth; orthographic boxes likewise; viewport: all rectangles with corners in 0..7 plus large/odd ones map the NDC square onto the rectangle; camera: 4 frame sizes x (5 requested rectangles, partly outside the frame | no viewport() call at all = whole frame) x 3 focal ratios x perspective/orthographic x 10 world points: matrix path vs pinhole pixel/depth, and a rendered half-pixel triangle lights only pixels near the prediction and inside viewport∩frame; first person: 6 operation histories (fresh; after rotate_to; after look_at; after two relative rotations; after translate+look_at; after a near-vertical rotate_to) x 27 positions x (29 azimuths incl. 270, -200, 540, 725 degrees x 8 altitudes incl. +-90 | 16 look-at directions incl. straight up/down and 0.06-6 degrees off vertical x 2 distances): rigid (det +1, orthonormal), position to origin, heading/target onto +z, translate displaces along right / up / horizontal forward. non-trivial = case fully judged with a decisive (non-band) outcome.",
+        "perspective: 5 focal x 4 aspect x 4 near/far x a 9x9x11 probe lattice in frustum coordinates (inside, on every face, +-2e-4 off, behind the eye): inside iff inside the clip volume, near/far to -1/+1, monotone depth, w = depth; orthographic boxes likewise; viewport: all rectangles with corners in 0..7 plus large/odd ones map the NDC square onto the rectangle; camera: 4 frame sizes x (5 requested rectangles, partly outside the frame | no viewport() call at all = whole frame) x 3 focal ratios x perspective/orthographic x 10 world points (orthographic also with the projection set before the viewport): matrix path vs pinhole pixel/depth, and a rendered half-pixel triangle lights only pixels near the prediction and inside viewport∩frame; first person: 6 operation histories (fresh; after rotate_to; after look_at; after two relative rotations; after translate+look_at; after a near-vertical rotate_to) x 27 positions x (29 azimuths incl. 270, -200, 540, 725 degrees x 8 altitudes incl. +-90 | 16 look-at directions incl. straight up/down and 0.06-6 degrees off vertical x 2 distances): rigid (det +1, orthonormal), position to origin, heading/target onto +z, translate displaces along right / up / horizontal forward. non-trivial = case fully judged with a decisive (non-band) outcome.",
         &["probe bands: 1e-4 relative around frustum faces are exempt", "pinhole model: pixel = centre + focal*W/2 * (x/z, y/z), depth 1/z, as documented for perspective() and viewport()"])
 }
 
@@ -551,6 +566,7 @@ fn main() {
                 "ortho" => check_ortho(i, r),
                 "viewport" => { let v: Vec<u32> = c.get("rect").unwrap().as_arr().unwrap().iter().map(|x| x.as_u64().unwrap() as u32).collect(); check_viewport(v[0], v[1], v[2], v[3], r) }
                 "camera" => check_camera(i, r),
+                "fp-default" => { let (d, n) = (FirstPerson::default(), FirstPerson::new()); if caught(|| d.world_to_view().0) != caught(|| n.world_to_view().0) || caught(|| d.world_to_view()).is_err() { r.violation("fp-default|".into(), "FirstPerson::default() differs from new()".into(), J::Null); } }
                 "fp" => check_first_person(i, r),
                 k => machinery_error(&format!("unknown replay kind {k}")),
             }
